@@ -360,6 +360,29 @@ func checkC16(e *env) {
 			e.flushJSON()
 		}
 	}
+	// first each built-in document with its reference systems written the other way ("crs": "<uri>" <-> {"uri": "<uri>"}), then as it is:
+	// what was decoded before must not decide how a document comes back
+	for i, d := range docs {
+		tree := deepCopy(d)
+		if m, ok := tree.(map[string]interface{}); ok {
+			flipped := false
+			for _, holder := range []interface{}{m, m["boundingBox"]} {
+				if h, ok := holder.(map[string]interface{}); ok {
+					switch c := h["crs"].(type) {
+					case string:
+						h["crs"], flipped = map[string]interface{}{"uri": c}, true
+					case map[string]interface{}:
+						if u, ok := c["uri"].(string); ok && len(c) == 1 {
+							h["crs"], flipped = u, true
+						}
+					}
+				}
+			}
+			if flipped {
+				one(names[i]+" with every crs written the other way", tree, true)
+			}
+		}
+	}
 	for i, d := range docs {
 		one(names[i], d, false)
 	}
